@@ -153,5 +153,21 @@ Definition run (v : val) : val :=
       | Some s', Some c' => let (tr, o) := vperform s' c' in VL [VL (map e_event tr); e_outcome o; e_wire o (vwire_of c')]
       | _, _ => verr 1
       end
+  (* order of calls: VL [4; moment; sess; kind; call] — moment 0: the object is built before the <hello> (None),
+     1: on the connected session; kind 0: standard call, 1: vendor call *)
+  | VL [VN 4; VN m; s; VN 0; c] =>
+      match d_sess s, d_call c with
+      | Some s', Some c' =>
+          let (tr, o) := perform_at (if N.eqb m 0 then None else Some s') s' c' in
+          VL [VL (map e_event tr); e_outcome o; e_wire o (wire_of c')]
+      | _, _ => verr 1
+      end
+  | VL [VN 4; VN m; s; VN 1; c] =>
+      match d_sess s, d_vcall c with
+      | Some s', Some c' =>
+          let (tr, o) := vperform_at (if N.eqb m 0 then None else Some s') s' c' in
+          VL [VL (map e_event tr); e_outcome o; e_wire o (vwire_of c')]
+      | _, _ => verr 1
+      end
   | _ => verr 1
   end.
